@@ -72,6 +72,22 @@ def c01_contract(code, rank=True, max_pairs=None, rng=None):
         for i, j in itertools.combinations(range(len(logs)), 2):
             if op_anticommute(logs[i], logs[j]):
                 out.append(('pair', '%s[%d] and %s[%d] anticommute' % (kind, i, kind, j)))
+    if not out:
+        # the objects a simulation actually uses are the cached matrices: they must be the BSF images of the listed operators (same order),
+        # and code.k the number of listed pairs
+        import numpy as _np
+        n = code.n
+        for kind, logs, mat in (('x', lx, _np.asarray(code.logicals_x)), ('z', lz, _np.asarray(code.logicals_z))):
+            want = _np.zeros((len(logs), 2 * n), dtype=int)
+            for i, lop in enumerate(logs):
+                for loc, pl in lop.items():
+                    if loc in qi:
+                        want[i, qi[loc]] = pl in 'XY'; want[i, n + qi[loc]] = pl in 'YZ'
+            if mat.shape != want.shape or not _np.array_equal(mat % 2, want):
+                bad_i = 0 if mat.shape != want.shape else int(_np.nonzero((mat % 2 != want).any(axis=1))[0][0])
+                out.append(('logmatrix', 'code.logicals_%s row %d is not the binary-symplectic image of get_logicals_%s()[%d]' % (kind, bad_i, kind, bad_i)))
+        if code.k != len(lx):
+            out.append(('logmatrix', 'code.k = %r but %d logical pairs are listed' % (code.k, len(lx))))
     if rank and not out:
         H = code.stabilizer_matrix.toarray() % 2
         r = gf2_rank(H.astype(int).tolist())
